@@ -199,6 +199,19 @@ func c14Time(label string, now time.Time, c *c14Cert) time.Time {
 		return now.Add(2 * time.Hour)
 	case "far":
 		return now.Add(3 * 24 * time.Hour)
+	// placements close to the clock (the currency clause thisUpdate <= now < nextUpdate at its edges)
+	case "m5m":
+		return now.Add(-5 * time.Minute)
+	case "m2m":
+		return now.Add(-2 * time.Minute)
+	case "m30s":
+		return now.Add(-30 * time.Second)
+	case "p30s":
+		return now.Add(30 * time.Second)
+	case "p2m":
+		return now.Add(2 * time.Minute)
+	case "p5m":
+		return now.Add(5 * time.Minute)
 	case "past":
 		return now.Add(-time.Hour)
 	case "plus1h":
@@ -281,6 +294,39 @@ func (t *c14Tables) blob(b []byte) int {
 	t.blobIdx[string(b)] = len(t.blobs)
 	t.blobs = append(t.blobs, append([]byte{}, b...))
 	return len(t.blobs) - 1
+}
+
+// nearInstant: some instant the code compares the clock with (thisUpdate, nextUpdate, the refresh
+// time of freshOCSP, the responder certificate's validity, the certificate's expiry) lies within
+// 3 s of the interval [t0, t1] during which the call ran.
+func (t *c14Tables) nearInstant(t0, t1 time.Time, c *c14Cert) bool {
+	lo, hi := t0.Add(-3*time.Second), t1.Add(3*time.Second)
+	in := func(x time.Time) bool { return !x.IsZero() && !x.Before(lo) && !x.After(hi) }
+	if in(c.expiry()) || in(c.leaf.NotAfter) {
+		return true
+	}
+	for _, b := range t.blobs {
+		r, err := ocsp.ParseResponse(b, nil)
+		if err != nil {
+			continue
+		}
+		next := r.NextUpdate
+		if in(r.ThisUpdate) || in(next) {
+			return true
+		}
+		if rc := r.Certificate; rc != nil {
+			if in(rc.NotBefore) || in(rc.NotAfter) {
+				return true
+			}
+			if rc.NotAfter.Before(next) {
+				next = rc.NotAfter
+			}
+		}
+		if in(r.ThisUpdate.Add(next.Sub(r.ThisUpdate) / 2)) {
+			return true
+		}
+	}
+	return false
 }
 
 // optBlob: -1 for "none"
@@ -642,8 +688,10 @@ func (wd *c14World) runCall(in c14CallIn) {
 		if !emitIt {
 			return
 		}
-		if t1.Sub(now) > 5*time.Minute {
+		if t1.Sub(now) > 5*time.Minute || t.nearInstant(now, t1, c) {
+			// the verdict would depend on where in [now, t1] the code read the clock
 			wd.skippedBoundary++
+			wd.w.Hist("call.skipped-boundary")
 			return
 		}
 		e := &emit.Enc{}
@@ -1418,6 +1466,26 @@ func (wd *c14World) randAns(r *rand.Rand) c14Ans {
 	return a
 }
 
+// nearClock moves thisUpdate or nextUpdate of a response close to the clock (single calls only:
+// histories have no per-instant boundary guard).
+func nearClock(r *rand.Rand, a c14Ans) c14Ans {
+	if a.Kind != "resp" {
+		return a
+	}
+	if r.Intn(2) == 0 {
+		a.Next = []string{"m5m", "m2m", "m30s", "p30s", "p2m"}[r.Intn(5)]
+		if a.This != "recent" && a.This != "old" {
+			a.This = "recent"
+		}
+	} else {
+		a.This = []string{"p30s", "p2m", "p5m", "m30s", "m2m"}[r.Intn(5)]
+		if a.Next != "week" && a.Next != "plus6h" {
+			a.Next = "week"
+		}
+	}
+	return a
+}
+
 func goodAns() c14Ans {
 	return c14Ans{Kind: "resp", Status: ocsp.Good, Serial: "right", This: "recent", Next: "week", Signer: "ca"}
 }
@@ -1751,6 +1819,36 @@ func runC14(tier string, seed int64, outdir string, replay string) error {
 			}
 		}
 	}
+	// the currency clause at its edges: thisUpdate / nextUpdate seconds to minutes from the clock,
+	// as a fresh answer and as a persisted staple (reused, or refused and replaced)
+	type tn struct{ th, nx string }
+	var near []tn
+	for _, nx := range []string{"m5m", "m2m", "m30s", "p30s", "p2m"} {
+		near = append(near, tn{"recent", nx}, tn{"m5m", nx})
+	}
+	for _, th := range []string{"p30s", "p2m", "p5m", "m30s"} {
+		near = append(near, tn{th, "week"}, tn{th, "plus1h"})
+	}
+	for _, x := range near {
+		if x.th == x.nx {
+			continue
+		}
+		for _, stt := range []int{ocsp.Good, ocsp.Revoked} {
+			a := c14Ans{Kind: "resp", Status: stt, Serial: "right", This: x.th, Next: x.nx, Signer: "ca"}
+			wd.runCall(c14CallIn{Flavor: "normal", Stored: "absent", Ans: a})
+			count++
+			if stt != ocsp.Good {
+				continue
+			}
+			sa := a
+			for _, ans := range []c14Ans{{Kind: "drop"}, goodAns(), a} {
+				for _, fl := range []string{"normal", "short"} {
+					wd.runCall(c14CallIn{Flavor: fl, Stored: "near:" + x.th + "/" + x.nx, StoredA: &sa, Ans: ans, NilPEM: count%2 == 0})
+					count++
+				}
+			}
+		}
+	}
 	// every persisted state against a few answers and flavors
 	for _, sk := range c14StoredKeys() {
 		for _, a := range []c14Ans{goodAns(), {Kind: "drop"}, {Kind: "refused"}, revokedAns(0), {Kind: "garbage", HTTP: 500}} {
@@ -1770,8 +1868,14 @@ func runC14(tier string, seed int64, outdir string, replay string) error {
 	storedKeys := c14StoredKeys()
 	for i := 0; i < nCalls; i++ {
 		in := c14CallIn{Flavor: flavors[r.Intn(len(flavors))], Stored: "absent", Ans: wd.randAns(r), NilPEM: r.Intn(2) == 0, Disabled: r.Intn(25) == 0}
+		if r.Intn(8) == 0 {
+			in.Ans = nearClock(r, in.Ans)
+		}
 		if r.Intn(2) == 0 {
 			in.Stored = storedKeys[r.Intn(len(storedKeys))]
+		} else if r.Intn(10) == 0 {
+			sa := nearClock(r, goodAns())
+			in.Stored, in.StoredA = "near:"+sa.This+"/"+sa.Next, &sa
 		}
 		if in.Flavor == "deadurl" {
 			in.Via = []string{"proxy", "override", "proxy", ""}[r.Intn(4)]
